@@ -532,7 +532,12 @@ Definition tick (d : flood) (ms : N) : flood :=
     then [check_flood].  The kinds are the indices of the windowed counters:
     0 RST_STREAM, 4 PING, 6 SETTINGS, 8 empty DATA, 9 WINDOW_UPDATE on stream 0,
     10 CONTINUATION, 12 glitch. *)
-Definition nth_counter (d : flood) (i : N) : N := nth (N.to_nat i) (counters d) 0.
+Definition nth_counter (d : flood) (i : N) : N :=
+  match i with
+  | 0 => rst_c d | 1 => rst_life d | 2 => rst_abusive d | 3 => rst_emitted d | 4 => ping_c d
+  | 5 => ping_life d | 6 => settings_c d | 7 => settings_life d | 8 => empty_c d | 9 => wu0_c d
+  | 10 => cont_c d | 11 => acc_size d | _ => glitch_c d
+  end.
 
 Definition bump (d : flood) (k : N) : flood :=
   let d1 :=
@@ -612,3 +617,10 @@ Definition kill (t : table) (sid : N) : table * option nat :=
   end.
 
 Definition shrink (t : table) : table := mktable (shrink_trailing (slots t)) (smap t) (ratio t).
+
+(** the admission test of [handle_header_state] for a new peer-initiated
+    stream: refused (RST_STREAM REFUSED_STREAM) when the number of open streams
+    has reached the advertised SETTINGS_MAX_CONCURRENT_STREAMS *)
+Definition accept_stream (t : table) (max_concurrent : nat) (sid : N) : table * bool :=
+  if (max_concurrent <=? length (smap t))%nat then (t, false)
+  else let '(t', _, _) := create t sid in (t', true).
